@@ -105,6 +105,9 @@ class C09(Prop):
         'in a bracket-argument context no detached bracket group is generated '
         '(its "]" would close the enclosing argument)',
     )
+    probes = ('read', 'reach')
+    probed_every = 10
+    reach_required = ['tokens.tokenize_spacers', 'reader.read_arg_optional', 'reader.read_arg_required', 'reader.read_arg', 'tokens.tokenize_symbols']
     min_nontrivial = 2000
     budget_s = {'quick': 240, 'thorough': 2400}
     exhaustive = {
